@@ -51,6 +51,11 @@ THEOREMS = [
     "Ural.BracketHost.bracketedHostOk_canon",
     "Ural.Props.C01.urlsplit_urlunsplit",
     "Ural.Props.C01.accessors_unsplitNetloc",
+    # the mode round trips that start from unquoted mode, whole function (Props/C02Modes.lean)
+    "Ural.CanonIdem.canonParts_reparsed_quoted",
+    "Ural.Props.C02.canonicalize_quoted_of_unquoted_partial",
+    "Ural.Props.C02.canonicalize_after_unquoted_partial",
+    "Ural.Props.C02.fullWholeModes_fails",
     # spelling-insensitivity of the whole function on STRINGS (Props/C02Spelling.lean):
     # every string (cleaning pass) ...
     "Ural.Props.C02.canon_surrounding",
@@ -103,7 +108,7 @@ THEOREMS = [
     "Ural.Props.C04.canonHost_lower",
     "Ural.Props.C04.preClean_surrounding",
 ]
-EXTRA_IMPORTS = ["UralModel.Props.C02Whole", "UralModel.Props.C02Spelling"]
+EXTRA_IMPORTS = ["UralModel.Props.C02Whole", "UralModel.Props.C02Spelling", "UralModel.Props.C02Modes"]
 TABLE_OBLIGATIONS = ["Ural.Props.C02.tables_modes", "Ural.Normpath.pathClean_ascii", "Ural.Props.C01.tables_authority"]
 RULE = (
     "A case is a base URL (structured components over the quantifier's token alphabet) plus a "
@@ -149,13 +154,18 @@ UNPROVED = (
     "(canonicalize_idempotent_partial / canonicalize_idempotent) for every string the function accepts, under two explicit "
     "side conditions: default protocol of 1-64 letters and no '%' in the parsed host (proof-route condition: the accessor "
     "lower-cases the host while the cleaning pass upper-cases escapes; the implementation IS idempotent there - witnesses "
-    "in the corpus). Per component, for all strings: idempotence in both modes and the four mode round trips for the path "
+    "in the corpus). Mode round trips of the whole function that START from unquoted mode, same two side conditions "
+    "(Props/C02Modes.lean): canonicalize_quoted_of_unquoted_partial -- quoted(unquoted(u)) = quoted(u) -- and "
+    "canonicalize_after_unquoted_partial (both second modes); FullWholeModes (all four, no side condition) is refuted in the "
+    "model on KF-C02-1's witness (fullWholeModes_fails). Per component, for all strings: idempotence in both modes and the four mode round trips for the path "
     "(path_modes_partial), userinfo items and fragment (opt_modes_partial), query (query_modes_partial) -- those that start "
     "from quoted mode under cleanStr / pathClean, which excludes exactly KF-C02-1's class (refutations of the full "
     "statements in Props/C02.lean). Lemmas only (congruences on intermediate values, not cited for any clause): "
     "clean_control_irrelevant, hex_case_irrelevant, canon_default_port, unquote_respects_equiv. "
-    "NOT theorems at whole-function level, each named: (1) the four mode round trips quoted<->unquoted of the whole "
-    "function; (2) idempotence in quoted mode; (3) idempotence in unquoted mode when the parsed host holds a '%'; "
+    "NOT theorems at whole-function level, each named: (1) the two mode compositions that START from quoted mode: "
+    "unquoted(quoted(u)) = unquoted(u) (false on KF-C02-1's class, a theorem per component outside it) and (2) "
+    "quoted(quoted(u)) = quoted(u), idempotence in quoted mode; (3) idempotence in unquoted mode and quoted(unquoted(u)) "
+    "when the parsed host holds a '%'; "
     "(4) every spelling clause for strings OUTSIDE the grammar class (relative path, brackets in the userinfo, an IP literal "
     "the model's approximate bracket check rejects or with an IPv4 tail, a host with a non-ASCII cased character, a default "
     "protocol that is not 1-64 letters); (5) compositions of transformations are not a separate theorem: the string theorems "
